@@ -188,7 +188,7 @@ def part_classes(rep, arg):
     n = nontrivial = 0
     for cname in names:
         e = absavp.BY_CLASS[cname]
-        klass = getattr(A, cname, None)
+        klass = absavp.lib_class(cname)
         if klass is None:
             continue   # reported by the dictionary-level part
         if e["type"] == "Grouped":
@@ -258,7 +258,7 @@ def dictionary_facts(rep):
     for cname, e in absavp.BY_CLASS.items():
         n += 1
         cls = live.get(cname)
-        if cls is None or getattr(A, cname, None) is None:
+        if cls is None or absavp.lib_class(cname) is None:
             rep.violation(f"C10:dictionary:class-missing:{cname}", f"published AVP class {cname} is gone",
                           {"part": "dict", "what": "missing", "cls": cname})
             continue
@@ -356,7 +356,7 @@ def replay(w):
     if w["part"] == "value":
         import bromelia.avps as A
         e = absavp.BY_CLASS[w["cls"]]
-        klass = getattr(A, w["cls"])
+        klass = absavp.lib_class(w["cls"])
         cands = [(v, d, "in") for v, d in (absavp.scalar_domain(e, True) if e["type"] != "Grouped" else [])]
         cands += [(v, None, "out") for v in out_of_domain(e)]
         hit = False
